@@ -196,6 +196,9 @@ func (s *solver) checkSat() satResult {
 		break
 	}
 	s.stats.Seconds += time.Since(t0).Seconds()
+	if s.log != nil {
+		fmt.Fprintf(s.log, "; => %s in %.3fs\n", res, time.Since(t0).Seconds())
+	}
 	switch res {
 	case rSat:
 		s.stats.Sat++
